@@ -107,6 +107,8 @@ def check_seqnum(obs, upto_docs=None):
                     missing = sorted(full - present)[:5]
                     extra = sorted(present - full)[:5]
                     what = "beyond" if extra and not missing else ("missing" if missing and not extra else "both")
+                    if ctx.get(r["stop_di"], (0, None, 0))[1] != "close_run":
+                        what += ":engine-closed"  # the run was ended by the engine (abort/stop/halt/failure), not by the plan
                     out.append(
                         (
                             f"seqnums-not-1..N:{kind}:{rewound}:{what}",
@@ -125,6 +127,10 @@ def check_seqnum(obs, upto_docs=None):
                     _i0, c0, rw0 = ctx.get(di0, (0, None, 0))
                     _i1, c1, rw1 = ctx.get(di, (0, None, 0))
                     replayable = c0 in ("save", "collect") and c1 in ("save", "collect")
+                    if kind == "collect" and c0 in ("collect", "state") and c1 in ("collect", "state"):
+                        # the engine's own back-stop collect (clean-up after the plan ended) of a flyer that was kicked
+                        # off again by the replay: the same data points re-taken, like a replayed 'collect' message
+                        replayable = True
                     if not replayable:
                         out.append((f"seqnum-reused:{kind}:{rewound}", f"run#{ri} stream {stream!r}: seq_num {s} emitted twice by sources that are never replayed ({c0!r}, {c1!r})"))
                     elif rw1 <= rw0:
